@@ -7,7 +7,11 @@ Three correspondence streams (all compared exactly with the Coq model of Run/C20
              nondominated_truncate;
   generate - the real GeneticAlgorithm.generate() driven by scripted selector / crossover / mutator stubs;
   foreign  - designs created by a second interpreter (own Individual.counter) and read back with
-             Individual.from_dict, mixed with local designs carrying the same ids.
+             Individual.from_dict, mixed with local designs carrying the same ids;
+  mutated  - pools of LONG-LIVED designs: every object is hashed (hash, set, dict key, nondominated_truncate), then
+             vectors change (in-place element assignment, clamping onto bounds, whole-list assignment, sync, swap) so
+             that distinct designs become identical and identical ones distinct, fresh twins with the same coordinates
+             join the pool, and the pool operations run again on the current vectors (several rounds).
 Direct oracle: the property text evaluated on the implementation's own results.
 """
 import copy
@@ -45,7 +49,9 @@ LEVEL_TEXT = ("Coq theorems over a model of Individual.__eq__/__hash__, of `in`,
               "vector lengths, values, streams of children and population sizes >= 2. Each run the binary64 instance of the model is compared exactly "
               "with the real objects: pools of all Individual classes built through every construction path (constructor, copy, copy.copy/deepcopy, "
               "sync, to_dict/from_dict incl. a second interpreter, colliding ids, scrambled costs/state/features, int/numpy coordinates, "
-              "hash-colliding vectors) under ==, !=, in, list.remove, Archive.remove, pop_acceptance, set(), nondominated_truncate, and the real "
+              "hash-colliding vectors) under ==, !=, in, list.remove, Archive.remove, pop_acceptance, set(), nondominated_truncate, the same operations on "
+              "long-lived objects whose vectors change AFTER they were hashed (in-place element assignment, clamping onto bounds, whole-list "
+              "assignment, sync, swap; fresh twins with the current coordinates), and the real "
               "generate() driven by scripted operators with exact repeats, near-repeats and hash collisions.")
 LEVEL_NOTE = ("Trusted: Coq kernel, the hand-written model, the harness; symmetry of |a-b| for binary64 is a stated premise (exercised, not proved); "
               "hash is an oracle function of the vector in the model (collisions between distinct tuples are allowed by the model and exercised: "
@@ -97,6 +103,7 @@ def run(ctx):
     n_pool = ctx.pick(1300, 30000)
     n_gen = ctx.pick(500, 12000)
     n_foreign = ctx.pick(120, 1500)
+    n_mutated = ctx.pick(160, 4000)
     cases, expected, meta = [], [], []
     stats = {"eq_true": 0, "eq_false": 0, "differs_only_in_one_coord": 0, "diff_position_hist": {},
              "ops": {}, "paths": {}, "classes": {}, "representations": {},
@@ -104,6 +111,9 @@ def run(ctx):
              "eq_pairs_hash_collision_distinct": 0, "eq_pairs_mixed_classes": 0,
              "set_cases_with_colliding_ids": 0, "set_cases_with_hash_collision": 0,
              "invariance_probes": 0, "representation_probes": 0,
+             "mutated": {"pools": 0, "rounds": 0, "cases": 0, "moves": {}, "objects_hashed_before_their_vector_changed": 0,
+                         "pairs_distinct_then_identical": 0, "pairs_identical_then_distinct": 0, "fresh_twins": 0,
+                         "in_place_changes": 0, "reassignments": 0},
              "generate": {"cases": 0, "children": 0, "rejected_exact_repeat": 0, "rejected_near_repeat": 0,
                           "kept_near_but_distinct": 0, "kept_hash_colliding_distinct": 0, "capacity_cut": 0,
                           "by_N": {}, "by_mode": {}, "by_class": {}}}
@@ -229,6 +239,7 @@ def run(ctx):
                  "repr": type(x.vector).__name__ + "/" + ",".join(sorted({type(c).__name__ for c in x.vector}))} for x in objs]
 
     selector = TournamentSelector([])
+    hash_reported = {}
 
     # ------------------------------------------------------------------ pool operations
     def pool_case(objs, source, kind=None, i=None, sel=None, j=None):
@@ -242,6 +253,17 @@ def run(ctx):
         m = {"source": source, "pool": describe(objs), "op": kind, "i": i, "sel": sel}
         vecs = [fvec(x) for x in objs]
         keyv = tuple(tuple(v) for v in vecs)
+        # "points with identical vectors have identical hashes": every pair of the pool, whatever happened to the objects before
+        for p in range(k):
+            for q in range(p):
+                if bits_equal(vecs[p], vecs[q]) and hash(objs[p]) != hash(objs[q]):
+                    hk = (id(objs[p]), id(objs[q]), hash(objs[p]), hash(objs[q]), keyv[p])
+                    if hk in hash_reported:                  # one report per pair of objects and state, not one per operation
+                        continue
+                    hash_reported[hk] = (objs[p], objs[q])   # keeps the objects alive: the ids in the key stay unambiguous
+                    fail("identical vectors hash differently (pool members %d and %d)" % (q, p),
+                         {"v": vecs[p], "a": m["pool"][q], "b": m["pool"][p], "hashes": [hash(objs[q]), hash(objs[p])], "source": source},
+                         {"kind": "hash", "v": vecs[p]})
 
         def same(p, q):                       # what the property calls the same design for containers
             return objs[p] is objs[q] or oracle_eq(vecs[p], vecs[q])
@@ -426,6 +448,125 @@ def run(ctx):
             pool_case(make_pool(), "local")
         except IndexError as e:          # vectors of one pool have one length: an IndexError is not expected
             ctx.mismatches.append({"what": "IndexError in a pool operation on vectors of equal length: %r" % (e,)})
+
+    # ------------------------------------------------------------------ long-lived designs whose vectors change after hashing
+    # (red team: a lazily cached __hash__ is invisible while every object is hashed only after its vector got its final value;
+    # the swarm algorithms update positions in place and clamp them onto the bounds, sync() and assignment replace the list)
+    MU = stats["mutated"]
+
+    def mutated_pool():
+        n = rng.choice([1, 2, 2, 3, 4])
+        objs = []
+        for v in make_vectors(n, rng.choice([3, 4, 5])):
+            objs.append(make_object(v, objs))
+        MU["pools"] += 1
+        hashed = set()
+        for rnd in range(rng.choice([2, 3, 3])):
+            MU["rounds"] += 1
+            # every object is hashed, by one of the routes the package / a user takes
+            route = rng.choice(["hash", "set", "dict", "truncate", "in_set"])
+            if route == "hash":
+                _ = [hash(x) for x in objs]
+            elif route == "set":
+                _ = set(objs)
+            elif route == "dict":
+                _ = {x: t for t, x in enumerate(objs)}
+            elif route == "truncate":
+                _ = nondominated_truncate(list(objs), len(objs))
+            else:
+                pool_set = set(objs)
+                _ = [x in pool_set for x in objs]
+            hashed.update(id(x) for x in objs)
+            before = [fvec(x) for x in objs]
+            touched = []
+            for _mv in range(rng.choice([1, 2, 3])):
+                kind = rng.choice(["clamp", "clamp", "copy_in_place", "perturb_in_place", "assign", "assign_alias", "sync", "swap", "split"])
+                bump(MU["moves"], kind)
+                ia, ib = rng.sample(range(len(objs)), 2)
+                a, b = objs[ia], objs[ib]
+                if kind == "clamp":                    # bound handling of the swarm algorithms: element by element, in place
+                    lo, hi = rng.choice([(-0.5, 0.5), (0.0, 1.0), (-1.0, 1.0), (1.0, 1.0), (-2.0, 2.5)])
+                    for t in rng.sample(range(len(objs)), rng.choice([2, 2, 3, len(objs)])):
+                        x = objs[t]
+                        for p_ in range(n):
+                            if x.vector[p_] > hi:
+                                x.vector[p_] = hi
+                            if x.vector[p_] < lo:
+                                x.vector[p_] = lo
+                        touched.append(t)
+                    MU["in_place_changes"] += 1
+                elif kind == "copy_in_place":
+                    for p_ in range(n):
+                        a.vector[p_] = b.vector[p_]
+                    touched.append(ia)
+                    MU["in_place_changes"] += 1
+                elif kind == "perturb_in_place":
+                    p_ = rng.randrange(n)
+                    a.vector[p_] = a.vector[p_] + rng.choice(DELTAS + [1.0, -1.0, 0.5])
+                    touched.append(ia)
+                    MU["in_place_changes"] += 1
+                elif kind == "assign":
+                    a.vector = rep(fvec(b))
+                    touched.append(ia)
+                    MU["reassignments"] += 1
+                elif kind == "assign_alias":
+                    a.vector = b.vector
+                    touched.append(ia)
+                    MU["reassignments"] += 1
+                elif kind == "sync":
+                    a.sync(b)
+                    touched.append(ia)
+                    MU["reassignments"] += 1
+                elif kind == "swap":
+                    a.vector, b.vector = b.vector, a.vector
+                    touched += [ia, ib]
+                    MU["reassignments"] += 2
+                else:                                  # members of a group of identical designs move apart
+                    twins_ = [t for t in range(len(objs)) if t != ia and bits_equal(fvec(objs[t]), fvec(a))]
+                    for t in twins_:
+                        x = objs[t]
+                        if x.vector is a.vector:
+                            x.vector = rep(fvec(x), "list")
+                        x.vector[rng.randrange(n)] = rng.choice(BASE)
+                        touched.append(t)
+                    MU["in_place_changes"] += len(twins_)
+            after = [fvec(x) for x in objs]
+            changed = [t for t in range(len(objs)) if not bits_equal(before[t], after[t])]
+            MU["objects_hashed_before_their_vector_changed"] += sum(1 for t in changed if id(objs[t]) in hashed)
+            for p_ in range(len(objs)):
+                for q_ in range(p_):
+                    was, now = bits_equal(before[p_], before[q_]), bits_equal(after[p_], after[q_])
+                    MU["pairs_distinct_then_identical"] += int(now and not was)
+                    MU["pairs_identical_then_distinct"] += int(was and not now)
+            # a fresh object with the coordinates a moved design has NOW (never hashed before)
+            pairs = []
+            for t in changed[:2]:
+                if len(objs) < 8 and rng.random() < 0.7:
+                    objs.append(decorate(rng.choice(CLASSES)(rep(after[t], rng.choice(["list", "list", "npf"])))))
+                    pairs.append((t, len(objs) - 1))
+                    MU["fresh_twins"] += 1
+            # identical pairs (old/old and old/fresh) first, then random operations, all on the current vectors
+            ident = [(p_, q_) for p_ in range(len(objs)) for q_ in range(p_) if bits_equal(fvec(objs[p_]), fvec(objs[q_]))]
+            todo = []
+            for (p_, q_) in (pairs + ident)[:2]:
+                others = [t for t in range(len(objs)) if t not in (p_, q_)]
+                extra_ = rng.sample(others, min(len(others), rng.choice([0, 1, 2])))
+                sel_ = [p_, q_] + extra_
+                rng.shuffle(sel_)
+                todo.append(("eq", p_, [], q_))
+                todo.append((rng.choice(["set", "truncate"]), p_, sel_, None))
+                todo.append((rng.choice(["in", "remove", "archive_remove", "repeated"]), p_, [t for t in sel_ if t != p_], None))
+            for _c in range(2):
+                todo.append((None, None, None, None))
+            for kind_, i_, sel_, j_ in todo:
+                try:
+                    pool_case(objs, "mutated after hashing", kind_, i_, sel_, j_)
+                    MU["cases"] += 1
+                except IndexError as e:
+                    ctx.mismatches.append({"what": "IndexError in a pool operation on vectors of equal length: %r" % (e,)})
+
+    for _ in range(n_mutated):
+        mutated_pool()
 
     # ------------------------------------------------------------------ designs of another interpreter
     # A second interpreter (its own Individual.counter) creates designs and dumps them with to_dict();
@@ -641,7 +782,11 @@ def run(ctx):
 
     stats["hash_collisions_available"] = sum(1 for a, b in COLLIDE.items() if hash(a) == hash(b))
     ctx.coq_compare("c20", HEADER, "c20_case", "c20_obs", "c20_run", "c20_obs_eqb", cases, expected, meta, shard=300)
-    ctx.rule = ("(1) pools of 2..7 designs of dimension 1..6 (copies, copies perturbed in 1..n coordinates by deltas %r, hash-colliding "
+    ctx.rule = ("(0) [stream `mutated`] pools of 3..8 long-lived designs: all hashed (hash / set / dict key / nondominated_truncate), then 1..3 vector "
+                "changes (clamping onto bounds in place, element-wise copy, perturbation in place, assignment of a new / of another member's list, "
+                "sync, swap, splitting identical designs), fresh twins with the current coordinates added, then ==, set/truncate, in/remove on "
+                "the identical pairs and random operations; 2..3 rounds per pool. "
+                "(1) pools of 2..7 designs of dimension 1..6 (copies, copies perturbed in 1..n coordinates by deltas %r, hash-colliding "
                 "variants, unrelated vectors) built as Individual / IndividualNSGAII / IndividualEpsMOEA / IndividualSwarm through constructor, "
                 ".copy(), copy.copy, copy.deepcopy, sync, to_dict->JSON->from_dict, from_dict with the id of another pool member, id assignment, "
                 "with float / numpy / int coordinates and scrambled costs, state, population_id, features; operations ==, != (both directions), in, "
